@@ -19,6 +19,7 @@ double verif_inst(std::vector<double>& v, std::vector<double>& w, double x, std:
   s += (double)VectorTools::containsAll(v, w); VectorTools::diff(v, w, r); VectorTools::append(v, w);
   int si = VectorTools::sum(vi) + VectorTools::prod(vi) + VectorTools::sumProd(vi, wi) + VectorTools::max(vi) + VectorTools::min(vi) + VectorTools::scalar<int, int>(vi, wi);
   std::vector<size_t> posi = VectorTools::whichAll(vi, xi); posi = VectorTools::whichMaxAll(vi); posi = VectorTools::whichMinAll(vi); si += VectorTools::min(vi) + (int)VectorTools::whichMin(vi);
+  ri = VectorTools::seq(xi, si, 1);
   ri = VectorTools::cumProd(vi); si += (int)VectorTools::whichMax(vi) + (int)VectorTools::which(vi, xi);
   return s + si + NumTools::logsum(x, s);
 }
@@ -30,7 +31,7 @@ TUS = {'vt': dict(src=INST, filter='bpp::VectorTools'),
 VD = 'std::vector<double>'
 VI = 'std::vector<int>'
 OPS = {'+': 'plus', '-': 'minus', '*': 'mul', '/': 'div'}
-free = {('exp', 1): 'verif_exp', ('log', 1): 'verif_log_ax', ('isinf', 1): 'verif_isinf', ('sort', 2): [('PValue', 'verif_sort_pvalue'), ('double', 'verif_sort_double')], ('append', 2): 'verif_append_double', ('contains', 2): 'VectorTools__contains',
+free = {('abs', 1): 'verif_abs_i', ('exp', 1): 'verif_exp', ('log', 1): 'verif_log_ax', ('isinf', 1): 'verif_isinf', ('sort', 2): [('PValue', 'verif_sort_pvalue'), ('double', 'verif_sort_double')], ('append', 2): 'verif_append_double', ('contains', 2): 'VectorTools__contains',
         ('max',): [('double (const std::vector<double> &)', 'VectorTools__max'), ('int (const std::vector<int> &)', 'VectorTools__max_i')],
         ('min',): [('double (const std::vector<double> &)', 'VectorTools__min'), ('int (const std::vector<int> &)', 'VectorTools__min_i')],
         ('whichMax',): [('(const std::vector<double> &)', 'VectorTools__whichMax'), ('(const std::vector<int> &)', 'VectorTools__whichMax_i')],
@@ -53,6 +54,7 @@ VEC_DECL(unsigned long, Vec_ulong)
 typedef struct StatTools_PValue StatTools_PValue;
 '''
 PRELUDE = r'''
+static inline int verif_abs_i(int x) { return x < 0 ? -x : x; }
 static inline _Bool verif_isinf(double x) { return x == VERIF_PINF || x == VERIF_MINF; }
 /* exp: uninterpreted with the axioms exp >= 0 (NaN for NaN), exp(-inf) = 0, exp(+inf) = +inf, exp(0) = 1, exp(x) <= 1 for x <= 0 */
 static inline double verif_exp(double x) {
@@ -220,7 +222,7 @@ FUNCS += [
 ]
 INT = [('sum', 'VectorTools__sum_i'), ('prod', 'VectorTools__prod_i'), ('cumProd', 'VectorTools__cumProd_i'), ('sumProd', 'VectorTools__sumProd_i'),
        ('max', 'VectorTools__max_i'), ('min', 'VectorTools__min_i'), ('whichMax', 'VectorTools__whichMax_i'), ('which', 'VectorTools__which_i'),
-       ('whichMin', 'VectorTools__whichMin_i'), ('whichAll', 'VectorTools__whichAll_i'), ('whichMaxAll', 'VectorTools__whichMaxAll_i'), ('whichMinAll', 'VectorTools__whichMinAll_i')]
+       ('whichMin', 'VectorTools__whichMin_i'), ('whichAll', 'VectorTools__whichAll_i'), ('whichMaxAll', 'VectorTools__whichMaxAll_i'), ('whichMinAll', 'VectorTools__whichMinAll_i'), ('seq', 'VectorTools__seq_i')]
 for nm, cn in INT:
     VT(nm, cn, ['int'])
 VT('scalar', 'VectorTools__scalar_i', ['int', 'int'], sig='(const std::vector<int> &, const std::vector<int> &)')
@@ -229,7 +231,7 @@ FUNCS.append(dict(cname='op_mul_vv_i', qname='bpp::operator*', targs=['int'], si
 
 BH = r'''
 #define FOR(i, n) for (unsigned long i = 0; i < (unsigned long)(n); ++i)
-int in_a[N1 + 1], in_b[N2 + 1], in_x;
+int in_a[N1 + 1], in_b[N2 + 1], in_x, in_f, in_t, in_by;
 static void mkv(Vec_int *v, int *src, unsigned long n) { v->d = (int*)verif_new_array(VEC_BCAP, sizeof(int)); v->n = n; FOR(i, n) { src[i] = nondet_int(); __CPROVER_assume(src[i] >= -DOM && src[i] <= DOM); v->d[i] = src[i]; } }
 void h(void) { Vec_int a, b; mkv(&a, in_a, N1); mkv(&b, in_b, N2); verif_exc = 0;
   /* definitions over integers, computed by straight-line loops */
@@ -272,6 +274,11 @@ void h(void) { Vec_int a, b; mkv(&a, in_a, N1); mkv(&b, in_b, N2); verif_exc = 0
     else { _Bool isel = 0; FOR(i, N1) { __CPROVER_assert(r <= in_a[i], "min bounds every element"); isel = isel || r == in_a[i]; } __CPROVER_assert(verif_exc == 0 && isel, "min is an element"); } }
   { verif_exc = 0; unsigned long r = VectorTools__whichMin_i(&a);
     if (N1 != 0) { __CPROVER_assert(verif_exc == 0 && r < N1, "whichMin is an index"); FOR(i, N1) { __CPROVER_assert(in_a[r] <= in_a[i], "whichMin points at a minimum"); if (i < r) __CPROVER_assert(in_a[i] > in_a[r], "whichMin is the first position of the minimum"); } } }
+  /* sequence generation: from (included) towards to by steps of size by > 0 */
+  { verif_exc = 0; int f = nondet_int(), t = nondet_int(), by = nondet_int(); __CPROVER_assume(f >= -1 && f <= 1 && t >= -1 && t <= 1 && by >= 1 && by <= 2); in_f = f; in_t = t; in_by = by;
+    Vec_int r = VectorTools__seq_i(f, t, by); unsigned long len = (unsigned long)((f < t ? t - f : f - t) / by) + 1;
+    __CPROVER_assert(verif_exc == 0 && r.n == len, "seq has |from - to| / by + 1 elements");
+    FOR(k, 3) if (k < r.n) __CPROVER_assert(r.d[k] == (f <= t ? f + (int)k * by : f - (int)k * by), "seq starts at from and moves towards to by the step"); }
   __CPROVER_assert(0, "verif_canary reachable after call"); }
 '''
 H_FDR = r'''
@@ -296,14 +303,14 @@ def generate_jobs(unit, tier):
         for n2 in sorted({n1, (n1 + 1) % (nmax + 1)}):
             jobs.append(dict(id='b_values_n%d_m%d' % (n1, n2), kind='bounded', mode='bounded', entry='h', bodies=ints, harness=BH, unwind=nmax + 3, timeout=600,
                              defs='#define N1 %d\n#define N2 %d\n#define DOM 2\n#define VEC_BCAP %d\n' % (n1, n2, nmax + 1),
-                             bound='vector lengths %d and %d, integer entries in [-2, 2]' % (n1, n2), doc='sum, prod, cumProd, sumProd, scalar, + and * element-wise, max, min, whichMax, whichMin, whichMaxAll, whichMinAll, whichAll against their definitions'))
+                             bound='vector lengths %d and %d, integer entries in [-2, 2]' % (n1, n2), doc='sum, prod, cumProd, sumProd, scalar, + and * element-wise, max, min, whichMax, whichMin, whichMaxAll, whichMinAll, whichAll, seq (from, to in [-1,1], step 1 or 2) against their definitions'))
         jobs.append(dict(id='b_fdr_n%d' % n1, kind='bounded', mode='bounded', entry='h', bodies=['StatTools_PValue__ctor_2', 'StatTools_PValue__op_lt', 'StatTools__computeFdr'],
                          harness=H_FDR, unwind=nmax + 3, timeout=600, defs='#define N1 %d\n#define VEC_BCAP %d\n' % (n1, nmax + 1),
                          bound='%d distinct p-values in [0,1] (symbolic doubles)' % n1, doc='false-discovery-rate adjustment against p*n/rank'))
     return jobs
 
 LEMMAS = []
-REPLAY = {'p_NumTools__logsum': dict(adapter='c07_misc.cpp'), 're:^b_fdr': dict(adapter='c07_misc.cpp'), 're:^p_op_': dict(adapter='c07_vec.cpp'), 're:^p_VectorTools__': dict(adapter='c07_vec.cpp')}
+REPLAY = {'p_NumTools__logsum': dict(adapter='c07_misc.cpp'), 're:^b_fdr': dict(adapter='c07_misc.cpp'), 're:^b_values': dict(adapter='c07_misc.cpp'), 're:^p_op_': dict(adapter='c07_vec.cpp'), 're:^p_VectorTools__': dict(adapter='c07_vec.cpp')}
 TRUSTED = ['std::vector model of stubs/vec.h; exp/log as uninterpreted functions with the axioms listed in stubs/libm.h and in the unit prelude (exp >= 0, exp(x) <= 1 for x <= 0, exp(-inf) = 0, log(0) = -inf)',
            'std::sort on vector<double> in the containsAll / diff proofs: assumed contract (rewrites the vector in place, length kept, contents unspecified); VectorTools::append (range insert): assumed contract (lengths add up, storage fresh)']
 ASSUMPTIONS = ['vectors shorter than 65536 elements in the proofs (cap of the memory model; induction, no unwinding)', 'order-type postconditions assume the compared elements are not NaN',
